@@ -1146,11 +1146,26 @@ def p_qualifier(p):
         else:
             qval = qualdecl.value  # default value
     else:
-        qval = cimvalue(qval, qualdecl.type)
+        qval = _cimvalue(qval, qualdecl.type, p,
+                         _format("qualifier {0!A}", qname))
     p[0] = CIMQualifier(qname, qval, type=qualdecl.type, **flavors)
 
     # Note: The propagated flag is not set because this is parsed MOF, which
     # contains specified qualifiers and not propagated qualifiers.
+
+
+def _cimvalue(value, type_, p, what):
+    """
+    Return the CIM typed value for a value specified in MOF, raising
+    MOFParseError if the value is not valid for the type.
+    """
+    try:
+        return cimvalue(value, type_)
+    except (ValueError, TypeError) as exc:
+        raise MOFParseError(
+            msg=_format("Invalid value {0!A} for {1} of type {2!A}: {3}",
+                        value, what, type_, exc),
+            parser_token=p)
 
 
 def p_flavorList(p):
@@ -1206,7 +1221,10 @@ def p_propertyDeclaration_1(p):
 
 def p_propertyDeclaration_2(p):
     """propertyDeclaration_2 : dataType propertyName defaultValue ';'"""
-    p[0] = CIMProperty(p[2], p[3], type=p[1])
+    p[0] = CIMProperty(p[2],
+                       _cimvalue(p[3], p[1], p,
+                                 _format("property {0!A}", p[2])),
+                       type=p[1])
 
 
 def p_propertyDeclaration_3(p):
@@ -1217,8 +1235,10 @@ def p_propertyDeclaration_3(p):
 
 def p_propertyDeclaration_4(p):
     """propertyDeclaration_4 : dataType propertyName array defaultValue ';'"""
-    p[0] = CIMProperty(p[2], p[4], type=p[1], is_array=True,
-                       array_size=p[3])
+    p[0] = CIMProperty(p[2],
+                       _cimvalue(p[4], p[1], p,
+                                 _format("property {0!A}", p[2])),
+                       type=p[1], is_array=True, array_size=p[3])
 
 
 def p_propertyDeclaration_5(p):
@@ -1231,7 +1251,9 @@ def p_propertyDeclaration_6(p):
     # pylint: disable=line-too-long
     """propertyDeclaration_6 : qualifierList dataType propertyName defaultValue ';'"""  # noqa: E501
     quals = OrderedDict([(x.name, x) for x in p[1]])
-    p[0] = CIMProperty(p[3], cimvalue(p[4], p[2]),
+    p[0] = CIMProperty(p[3],
+                       _cimvalue(p[4], p[2], p,
+                                 _format("property {0!A}", p[3])),
                        type=p[2], qualifiers=quals)
 
 
@@ -1246,7 +1268,9 @@ def p_propertyDeclaration_8(p):
     # pylint: disable=line-too-long
     """propertyDeclaration_8 : qualifierList dataType propertyName array defaultValue ';'"""  # noqa: E501
     quals = OrderedDict([(x.name, x) for x in p[1]])
-    p[0] = CIMProperty(p[3], cimvalue(p[5], p[2]),
+    p[0] = CIMProperty(p[3],
+                       _cimvalue(p[5], p[2], p,
+                                 _format("property {0!A}", p[3])),
                        type=p[2], qualifiers=quals, is_array=True,
                        array_size=p[4])
 
@@ -1906,7 +1930,7 @@ def p_instanceDeclaration(p):
                             parser_token=p)
                 pprop.value = cimvalue(pval, cprop.type)
             inst.properties[pname] = pprop
-        except ValueError as ve:
+        except (ValueError, TypeError) as ve:
             raise MOFParseError(
                 msg=_format(
                     "Cannot compile instance of {0!A} because it specifies "
